@@ -351,13 +351,81 @@ func main() {
 		"single-token deletions/duplications/swaps; for every accepted derivation with <= %d deviations and every accepted corpus text, every insertion of %d updating/CALL clauses at every clause boundary and of $p at every "+
 		"atom / pattern-properties position. distinct_nontrivial counts distinct texts (exact: sharded by hash) that carry a forbidden construct and are syntactically valid for the project's raw parser, "+
 		"i.e. texts only the filters can stop.", k, k-1, k-1, len(insertClauses)))
+	run.Assume("a default context is used for one parse; histories of two contexts (every order of creating and using them) are enumerated over a fixed list of 10 texts")
 	run.Assume("the raw parse tree of the project's generated parser is the ground truth for 'contains an updating clause / CALL / parameter'")
 	run.Assume("translation uses pgutil.InMemoryKindMapper primed with the kinds of the query; texts the translator rejects or panics on are counted, not judged (C05)")
 	run.Finish()
 }
 
+// contextHistories: the default context is an object with state (its filters report into it). Every order of creating
+// two default contexts and parsing one text with each - creation and use interleaved in all six ways - over a fixed set
+// of forbidden and read-only texts: a forbidden text must be rejected by its context whatever happened to the other one.
+func contextHistories(run *core.Run) {
+	forbidden := []string{
+		"match (n) set n.flag = true return n",
+		"match (n) where n.name = 'x' set n.flag = true with n return n",
+		"match (n) detach delete n",
+		"create (n:A) return n",
+		"match (n) where n.name = $name return n",
+		"match (n) return n limit $l",
+		"call db.labels()",
+		"match (n) call db.idx(n) yield x return n, x",
+	}
+	clean := []string{"match (n) return n", "match (n)-[r]->(m) where n.name = 'a' return m"}
+	texts := append(append([]string{}, forbidden...), clean...)
+	isForbidden := map[string]bool{}
+	for _, f := range forbidden {
+		isForbidden[f] = true
+	}
+	// an order is a sequence over N1 N2 P1 P2 with Ni before Pi
+	orders := [][]string{
+		{"N1", "P1", "N2", "P2"}, {"N1", "N2", "P1", "P2"}, {"N1", "N2", "P2", "P1"},
+		{"N2", "N1", "P1", "P2"}, {"N2", "N1", "P2", "P1"}, {"N2", "P2", "N1", "P1"},
+	}
+	for _, order := range orders {
+		for _, t1 := range texts {
+			for _, t2 := range texts {
+				var c1, c2 *frontend.Context
+				for _, op := range order {
+					var (
+						ctx  *frontend.Context
+						text string
+					)
+					switch op {
+					case "N1":
+						c1 = frontend.DefaultCypherContext()
+						continue
+					case "N2":
+						c2 = frontend.DefaultCypherContext()
+						continue
+					case "P1":
+						ctx, text = c1, t1
+					case "P2":
+						ctx, text = c2, t2
+					}
+					run.Add("context_history_parses", 1)
+					var err error
+					var m *cypher.RegularQuery
+					if p := core.Try(func() { m, err = frontend.ParseCypher(ctx, text) }); p != nil {
+						run.Add("panics_seen(C08)", 1)
+						continue
+					}
+					if err == nil && m != nil && isForbidden[text] {
+						a := artefact{Text: text, Origin: "context-history", Edit: strings.Join(order, " ") + " with P1=" + t1 + " / P2=" + t2}
+						run.Report(core.Violation{Class: "accepted-by-a-default-context-created-before-another-one", Summary: fmt.Sprintf("order %v (N = create a default context, P = parse with it; P1 %q, P2 %q): %q was accepted", order, t1, t2, text), Artefact: a})
+					}
+				}
+			}
+		}
+	}
+	run.Add("context_histories", int64(len(orders)*len(texts)*len(texts)))
+}
+
 func explore(s *explorer, k int) {
 	run := s.run
+	if s.me == 0 {
+		contextHistories(run)
+	}
 	insK := k - 1 // insertions are made into the accepted derivations with at most k-1 deviations (and into the corpora)
 	corpus, err := cytext.Corpus()
 	if err != nil {
